@@ -1,4 +1,4 @@
-use std::{fmt, io};
+use std::{collections::VecDeque, fmt, io};
 
 use bitflags::bitflags;
 use bytes::BytesMut;
@@ -35,7 +35,25 @@ pub struct Codec {
     // encoder part
     flags: Flags,
     encoder: encoder::MessageEncoder<Response<()>>,
+
+    // framing context of decoded requests that were not answered yet, oldest first
+    pending: VecDeque<RequestContext>,
 }
+
+/// What a response's framing depends on from its request.
+///
+/// Requests can be decoded (pipelined) before earlier responses are encoded, so this is kept per
+/// request instead of per connection.
+#[derive(Debug, Clone, Copy)]
+struct RequestContext {
+    head: bool,
+    version: Version,
+    conn_type: ConnectionType,
+}
+
+/// Upper bound for remembered request contexts; only reachable when the codec is used to decode
+/// without ever encoding responses.
+const MAX_PENDING_CONTEXTS: usize = 65_536;
 
 impl Default for Codec {
     fn default() -> Self {
@@ -70,6 +88,7 @@ impl Codec {
             version: Version::HTTP_11,
             conn_type: ConnectionType::Close,
             encoder: encoder::MessageEncoder::default(),
+            pending: VecDeque::new(),
         }
     }
 
@@ -142,6 +161,15 @@ impl Decoder for Codec {
                 self.conn_type = ConnectionType::Close
             }
 
+            if self.pending.len() >= MAX_PENDING_CONTEXTS {
+                self.pending.pop_front();
+            }
+            self.pending.push_back(RequestContext {
+                head: self.flags.contains(Flags::HEAD),
+                version: self.version,
+                conn_type: self.conn_type,
+            });
+
             match payload {
                 PayloadType::None => self.payload = None,
                 PayloadType::Payload(pl) => self.payload = Some(pl),
@@ -167,6 +195,14 @@ impl Encoder<Message<(Response<()>, BodySize)>> for Codec {
     ) -> Result<(), Self::Error> {
         match item {
             Message::Item((mut res, length)) => {
+                // responses are encoded in request order: frame this one with the context of the
+                // oldest unanswered request, not with that of the most recently decoded one
+                if let Some(ctx) = self.pending.pop_front() {
+                    self.flags.set(Flags::HEAD, ctx.head);
+                    self.version = ctx.version;
+                    self.conn_type = ctx.conn_type;
+                }
+
                 // set response version
                 res.head_mut().version = self.version;
 
